@@ -11,6 +11,9 @@ CHECKS = {
  "C19": dict(level="model_checking", technique="CrossHair/z3 bounded symbolic execution of ResourceQuerySegment.to_absolute and Query.to_absolute against a POSIX-normpath reference model",
              text="Bounded exhaustive symbolic exploration: every directory depth <=3 (thorough 4) x every component-class vector of length <=4 (thorough 6) is covered by an exhausted path tree of the real to_absolute code; Query-level frame/idempotence obligations over <=3 segments.",
              design="§4 C19"),
+ "C17": dict(level="model_checking", technique="CrossHair/z3 bounded symbolic execution: one-step lemma over the read-only proxy from arbitrary valid pre-states, and a root-containment kernel over FileStore key handling on an in-memory POSIX model (ShimFS) with logged accesses",
+             text="Read-only view: from every valid 6-key pre-state (MemoryStore, FileStore/ShimFS) each of 7 mutators with universe keys, free symbolic key text |k|<=3, symbolic payload and 13 write modes is refused with ReadOnlyStoreException and leaves every observer and the FS snapshot unchanged; reads equal the underlying reads. Containment: every key of <=3 (thorough 4) components over {name,'.','..','','__metadata__'} x leading '/' x 15 operations, directly / via mount / via evaluate_resource, touches nothing outside the root.",
+             design="§4 C17"),
  "C20": dict(level="model_checking", technique="CrossHair/z3 bounded symbolic execution of the enable/disable gate and register_remote_serialized over all call histories within the bound",
              text="Gate clause only: for every enable/disable history of length <=6 (thorough 10) the gate equals the last call, a refused registration returns the error and leaves the registry unchanged, and the real Flask endpoints (run untraced per path) refuse exactly when the gate is closed. All other HTTP clauses of C20 are outside the claim.",
              design="§4 C20"),
